@@ -13,6 +13,8 @@ from ural.lru import lru_stems, canonicalized_lru_stems, normalized_lru_stems, f
 
 def host_of_result(res):
     """host of a scheme-less normalize / fingerprint result"""
+    if not isinstance(res, str):
+        return "<not a string: %r>" % (res,)             # the URL-level functions return strings (the input itself when it cannot be parsed)
     try:
         return urlsplit("//" + res).hostname or None   # '' and None both mean: no host left
     except ValueError:
